@@ -32,6 +32,9 @@ def run(ck):
     ck.clause("C13.3", "segments are built only via AlignmentSegment.create / EmptyAlignmentSegment")
     ck.clause("C13.4", "empty-segment fallback and final emission")
     ck.clause("C13.5", "the scan covers every position once")
+    ck.clause("C13.11", "every position whose score is added to the running sum is followed by the break test before the scan moves on "
+                        "(unless the score just added is known to be positive: only a non-positive score can make the test hold), and "
+                        "every step that continues the run offers its prefix to the accept test")
     ck.clause("C13.10", "a break ends the run for good: the candidate kept so far is either emitted or dropped, on every path through the "
                         "break the next run starts from an empty candidate (its running maximum and the prefix it has to beat are its own)")
     ck.clause("C13.6", "a segment's score is exactly the sum of its members' scores (as C04.2): the builder compares its running sum with it")
@@ -229,6 +232,10 @@ def run(ck):
         c, m, node = items[0]
         ok = c == want or T.mk_not(c) == want
         ck.judge(ok, "C13.1", f"{builder.name}:{kind}-test", where(m, node), text, found=T.show(c), required=T.show(want))
+
+    # ---- C13.11 every step takes the tests
+    if ck.wants("C13.11"):
+        _every_step_tested(ck, builder, main, methods, same_class, EXT, CUR, END, TH, M, want_accept, found)
 
     # ---- C13.2 slices and resets
     n_create = 0
@@ -449,3 +456,83 @@ def _candidate_reset(ck, builder, m, start_attr, SEG, same_class):
                                 f"{T.show(last[1])[:140] if last[1] is not None else last[0]}")
     if not n_paths:
         raise AnalysisError(f"{m.where}: no path through the break sequence found for the candidate rule")
+
+
+def _every_step_tested(ck, builder, main, methods, same_class, EXT, CUR, END, TH, M, want_accept, found):
+    """C13.11. 'never has a running prefix sum that is non-positive or that falls breakSegmentThreshold or more below its running
+    maximum' is a statement about EVERY prefix: a step that adds a score and moves the cursor on without the break test lets a
+    prefix through untested (a gap that dips below the bound and is lifted back by the next pair stays inside the segment)."""
+    accept_fn = found["accept"][0][1]
+    n_steps = 0
+    bad = None
+    no_accept = None
+    for pa in explore(ck, main, inline=2, inline_ok=same_class, track_heap=False, unroll=(1,)):
+        evs = pa.events
+        for i, e in enumerate(evs):
+            if not (e.kind == "aug" and e.extra["target"] == EXT):
+                continue
+            tested = False
+            positive_known = False
+            advanced = None
+            offered = False
+            for f in evs[i + 1:]:
+                if f.kind == "cond":
+                    c = T.as_bool(f.term)
+                    if T.contains(c, EXT) and (T.contains(c, TH) or T.contains(c, CUR) or c in (T.mk_le(EXT, C(0)), T.mk_not(T.mk_le(EXT, C(0))))) \
+                            and advanced is None:
+                        tested = True
+                    if c == want_accept or T.mk_not(c) == want_accept:
+                        offered = True
+                    if f.node is not None and any(isinstance(x, ast.While) for x in [f.node]):
+                        break
+                if f.kind == "call" and f.term[0] == "app" and f.term[1] == accept_fn.qualname:
+                    offered = True
+                if f.kind in ("aug", "setattr") and f.extra and f.extra.get("target") == END and advanced is None:
+                    advanced = f
+                if f.kind == "loop-exit" or (f.kind == "aug" and f.extra["target"] == EXT):
+                    break
+            if advanced is None:
+                continue                          # a break: the cursor is re-positioned by the restart sequence (C13.2)
+            n_steps += 1
+            if not tested and not positive_known and bad is None:
+                bad = (pa, advanced)
+            if tested and not offered and no_accept is None and accept_fn is not main:
+                no_accept = (pa, advanced)
+    ck.floor("C13.11 continuing steps of the scan explored", n_steps, 1)
+    if bad is not None:
+        pa, adv = bad
+        conds = [T.show(T.as_bool(e.term))[:90] for e in pa.events if e.kind == "cond"][1:3]
+        ck.violation("C13.11", f"{builder.name}:break-test-every-step", where(main, adv.node),
+                     "a score is added to the running sum and the scan moves on without the break test: the prefix that ends here is never "
+                     "compared with 0 or with (running maximum - breakSegmentThreshold) - a stretch of unmatched labels that takes the sum "
+                     "below the bound and is lifted back by the following pair stays inside one segment",
+                     found="the step is taken under: " + "; ".join(conds), required="the break test after every added score")
+    else:
+        ck.ok("C13.11", f"{builder.name}:break-test-every-step", main.where, f"{n_steps} continuing step(s): the break test precedes every advance")
+    if no_accept is not None:
+        raise AnalysisError(f"{where(main, no_accept[1].node)}: a continuing step does not offer its prefix to the accept test")
+    # inside the accept procedure nothing comes between entry and the test
+    if accept_fn is not main:
+        for pa in explore(ck, accept_fn, inline=2, inline_ok=same_class, track_heap=False, unroll=(0, 1)):
+            cs = [T.as_bool(e.term) for e in pa.events if e.kind == "cond"]
+            if not cs:
+                raise AnalysisError(f"{accept_fn.where}: a path through the accept step makes no test at all")
+            first = cs[0]
+            atoms = list(first[1]) if first[0] in ("and", "or") else [first]
+            score_atoms = [a for a in atoms if any(x[0] == "attr" and x[2] == "score" and x[1][0] == "idx" and x[1][2] == END for x in T.subterms(a))]
+            if score_atoms and first[0] in ("and", "le", "lt") and not T.contains(first, EXT):
+                sc = next(x for x in T.subterms(score_atoms[0]) if x[0] == "attr" and x[2] == "score" and x[1][0] == "idx" and x[1][2] == END)
+                if score_atoms[0] == T.mk_gt(sc, C(0)):
+                    continue                 # "the next score is positive": a longer prefix with a higher sum is certain to be offered next
+                if score_atoms[0] == T.mk_ge(sc, C(0)):
+                    ck.violation("C13.11", f"{builder.name}:accept-test-every-step", where(accept_fn, pa.events[0].node if pa.events else accept_fn.node),
+                                 "the accept test is skipped when the NEXT score is >= 0: for a next score of exactly 0 the following "
+                                 "prefix has the same sum, is accepted in place of this one and the segment ends on a zero-scored member, "
+                                 "not 'at the first position where its maximum is reached'",
+                                 found=T.show(first)[:140], required="skip only when the next score is > 0 (strictly)")
+                    return
+            if not (cs[0] == want_accept or T.mk_not(cs[0]) == want_accept or (T.contains(cs[0], EXT) and T.contains(cs[0], CUR))):
+                raise AnalysisError(f"{accept_fn.where}: the accept test is preceded by a condition that can skip it and that is not "
+                                    f"understood: {T.show(cs[0])[:120]} (a prefix that is a new maximum must be accepted unless a longer "
+                                    "one is certain to follow)")
+        ck.ok("C13.11", f"{builder.name}:accept-test-every-step", accept_fn.where, "the accept step begins with the accept test")
